@@ -33,6 +33,7 @@
 #include <string.h>
 #include <stdint.h>
 #include <sched.h>
+#include <signal.h>
 
 #define DD_MAXT 8
 #define DD_MAXP 3
@@ -247,6 +248,9 @@ static int dd_body(parsec_execution_stream_t *es, parsec_task_t *this_task)
     parsec_dtd_unpack_args(this_task, a[0], a[1], a[2], a[3], a[4], a[5], a[6]);
     if (T->xval && xv != dd_xval_of(tid)) { fprintf(stderr, "dd_body: VALUE parameter of task %d corrupted (%d)\n", tid, xv); dd_log[tid].conflict |= 16; }
     if (T->rank >= 0 && rk != T->rank) dd_log[tid].conflict |= 16;
+    for (int k = 0; k < T->np; k++) if (NULL == p[k]) {      /* the runtime handed the body a NULL data pointer: what a user body would dereference */
+        fprintf(stderr, "dd_body: NULL data pointer for parameter %d of task %d\n", k, tid); fflush(stderr); raise(SIGSEGV);
+    }
     dd_body_core(es, tid, p);
     return PARSEC_HOOK_RETURN_DONE;
 }
